@@ -131,6 +131,9 @@ func (g *progGen) lit(kind int) string {
 	switch kind {
 	case kStr:
 		s := pick(g.r, strVocab)
+		if g.r.p(0.12) {
+			s = fmt.Sprintf("u%d", g.r.n(1000000)) // a value this process has not seen (cold memo keys)
+		}
 		s = strings.ReplaceAll(s, `\`, `\\`)
 		s = strings.ReplaceAll(s, `'`, `\'`)
 		s = strings.ReplaceAll(s, "\t", `\t`)
@@ -438,7 +441,11 @@ func (g *progGen) scalar(k int, f focus, depth int) string {
 		case 8:
 			return fmt.Sprintf("%s.replace(%s, %s)", g.operand(kStr, f, d), g.lit(kStr), g.lit(kStr))
 		case 9:
-			return fmt.Sprintf("%s.replaceMatches('%s', '%s')", g.operand(kStr, f, d), pick(g.r, []string{"[aeiou]", "^a", "\\\\d+", "(a|b)", "."}), pick(g.r, []string{"_", "", "x"}))
+			pat := pick(g.r, []string{"[aeiou]", "^a", "\\\\d+", "(a|b)", "."})
+			if g.r.p(0.4) {
+				pat = fmt.Sprintf("%s|zq%dz", pat, g.r.n(1000000))
+			}
+			return fmt.Sprintf("%s.replaceMatches('%s', '%s')", g.operand(kStr, f, d), pat, pick(g.r, []string{"_", "", "x"}))
 		case 10:
 			k2 := pick(g.r, []int{kInt, kDec, kBool, kDate, kDateTime, kTime, kQty})
 			return fmt.Sprintf("%s.toString()", g.operand(k2, f, d))
@@ -657,6 +664,9 @@ func (g *progGen) boolean(f focus, depth int) string {
 		arg := g.lit(kStr)
 		if fn == "matches" {
 			arg = pick(g.r, []string{"'^[a-z]+$'", "'.*a.*'", "'\\\\d+'", "'('", "'[A-Z]'"})
+			if g.r.p(0.4) && arg != "'('" {
+				arg = fmt.Sprintf("%s|zq%dz'", strings.TrimSuffix(arg, "'"), g.r.n(1000000))
+			}
 		}
 		return fmt.Sprintf("%s.%s(%s)", g.operand(kStr, f, d), fn, arg)
 	case 11:
